@@ -27,7 +27,7 @@ def declare(rep):
     rep.rule("C11.label-propagation", "split_edge gives each new face the type label of the parent face on its side", floor=4)
     rep.rule("C11.winding-side", "split_edge orients the children of each parent face with that face's own normal and opposite node", floor=2)
     rep.rule("C11.bounded", "refine_mesh returns after a bounded number of operations: its work loop is bounded by the operation counter, every pass pops an edge first, every call that can refill the work list is paired with counter++, "
-             "and no counted for-loop of the refinement closure changes its own induction variable in the body", floor=5)
+             "and no counted for-loop of the refinement closure changes its own induction variable in the body", floor=3)
     rep.rule("C11.triangle-score", "get_triangle_score measures the three distinct edges of the triangle and returns, in every branch, an edge whose measured length is maximal under the comparisons that lead to that branch (decided over all weak orderings of the three lengths)", floor=4)
     rep.rule("C11.selective", "split only if l2 > l_max^2, merge only if l2 < l_min^2 and can_be_merged, swap only if score < threshold; thresholds are squares of the constructor arguments", floor=5)
 
@@ -504,47 +504,62 @@ def triangle_score(rep, prog):
                       "get_triangle_score: %s measure the same pair of nodes (or a node with itself): one edge of the triangle is never measured, so the perimeter in the quality score counts an edge twice and the longest-edge "
                       "comparison is made with the wrong length - well-shaped triangles are classified as elongated and swapped" % ", ".join(dup))
         return
-    assigns = []
-    for n in walk(fn["body"]):
-        if n.get("k") in ("CXXOperatorCallExpr", "BinaryOperator") and n.get("op") == "=":
-            calls = [x for x in walk(n) if x.get("k") == "CXXMemberCallExpr" and x.get("callee") == "cell::get_edge"]
-            if calls:
-                a = call_args(calls[0])
-                p = frozenset((node_id_of(a[0]), node_id_of(a[1])))
-                assigns.append((n, p))
-    if len(assigns) < 3:
-        raise AnalysisBroken("get_triangle_score: longest-edge assignments not found")
+    # which edge is handed back: the function's own selection logic interpreted for every weak ordering of the three lengths
+    # (finite.Interp: the lengths are known only through their ranks, the node ids are the tokens of their bindings)
+    from .. import finite
     dids = list(lengths)
-    for n, p in assigns:
-        guards = []
-        for par, slot, ch in fi.ancestors(n):
-            if par.get("k") == "IfStmt" and slot in ("then", "else"):
-                c = strip(par["cond"])
-                if c.get("k") == "BinaryOperator" and c.get("op") in (">", "<", ">=", "<="):
-                    l, r = strip(c["c"][0]), strip(c["c"][1])
-                    if l.get("k") == "DeclRefExpr" and r.get("k") == "DeclRefExpr" and l["ref"]["did"] in lengths and r["ref"]["did"] in lengths:
-                        guards.append((l["ref"]["did"], c["op"], r["ref"]["did"], slot == "then"))
+    bad = None
+    n_ok = 0
+    for ranks in itertools.product(range(3), repeat=3):
+        rank = dict(zip(dids, ranks))
+        chosen = []
+
+        def atom(e, it):
+            k = e.get("k")
+            if k == "DeclRefExpr" and e["ref"].get("did") in rank and e["ref"].get("did") not in it.env:
+                return rank[e["ref"]["did"]]
+            if k == "DeclRefExpr" and e["ref"].get("did") in ids and e["ref"].get("did") not in it.env:
+                return ("id", e["ref"]["did"])
+            if k == "CXXMemberCallExpr" and e.get("callee") == "cell::get_edge":
+                a = call_args(e)
+                pa, pb = it.ev(a[0]), it.ev(a[1])
+                chosen.append(frozenset((pa[1] if isinstance(pa, tuple) else None, pb[1] if isinstance(pb, tuple) else None)))
+                return ("edge", len(chosen) - 1)
+            if k == "CXXMemberCallExpr" and e.get("callee", "").split("::")[-1] in ("value", "has_value", "operator*"):
+                return it.ev(call_obj(e)) if e["callee"].split("::")[-1] != "has_value" else True
+            if k == "CallExpr" and e.get("callee") in ("std::make_pair",):
+                vals = [it.ev(a) for a in call_args(e)]
+                return ("pair", vals)
+            return NotImplemented
+        it = finite.Interp(atom)
+        # the length variables themselves are inputs: do not let their declarations overwrite the ranks
+        try:
+            try:
+                for st in fn["body"].get("c", []):
+                    if st.get("k") == "DeclStmt" and any(d.get("did") in rank for d in st.get("decls", [])):
                         continue
-                raise AnalysisBroken("%s: guard %s of the longest-edge choice is not a comparison of two edge lengths" % (prog.loc(fn, par), short(c, 60)))
-        chosen = [d for d in dids if lengths[d][1] == p]
-        if len(chosen) != 1:
-            rep.violation(rule, prog, fn, n, "returned edge is not an edge of the triangle", "%s does not designate one of the three measured edges" % short(n, 70))
+                    it.run(st)
+            except finite.Return as r_:
+                pass
+        except finite.Unknown as u:
+            raise AnalysisBroken("get_triangle_score: %s cannot be interpreted" % u)
+        if not chosen:
+            raise AnalysisBroken("get_triangle_score: no edge is looked up")
+        p = chosen[-1]
+        sel = [d for d in dids if lengths[d][1] == p]
+        if len(sel) != 1:
+            bad = bad or (ranks, None)
             continue
-        ch_ = chosen[0]
-        bad = None
-        for ranks in itertools.product(range(3), repeat=3):
-            val = dict(zip(dids, ranks))
-            ok = True
-            for a, op, b, pos in guards:
-                t = {">": val[a] > val[b], "<": val[a] < val[b], ">=": val[a] >= val[b], "<=": val[a] <= val[b]}[op]
-                if t != pos:
-                    ok = False
-                    break
-            if ok and val[ch_] < max(val.values()):
-                bad = val
-                break
-        if bad is None:
-            rep.ok(rule, prog, fn, n, "%s is a longest edge under every ordering of the lengths that reaches this branch" % lengths[ch_][0]["name"])
+        if rank[sel[0]] < max(rank.values()):
+            bad = bad or (ranks, sel[0])
         else:
-            rep.violation(rule, prog, fn, n, "branch returns an edge that is not the longest",
-                          "%s is reached for the ordering %s of the edge lengths, for which %s is not maximal: the edge handed to swap_edge is not the longest edge of the triangle" % (short(n, 60), {lengths[d][0]["name"]: r for d, r in bad.items()}, lengths[ch_][0]["name"]))
+            n_ok += 1
+    site = [x for x in walk(fn["body"]) if x.get("k") == "CXXMemberCallExpr" and x.get("callee") == "cell::get_edge"]
+    if bad is None:
+        for k_ in range(3):
+            rep.ok(rule, prog, fn, site[min(k_, len(site) - 1)] if site else None, "the edge handed back is a longest edge for every weak ordering of the three lengths (27 interpreted); case %d" % (k_ + 1))
+    else:
+        ranks, sel = bad
+        rep.violation(rule, prog, fn, site[0] if site else None, "a branch returns an edge that is not the longest",
+                      "for the ordering %s of the edge lengths get_triangle_score hands back %s, which is not a longest edge of the triangle: the edge given to swap_edge is not the longest one"
+                      % ({lengths[d][0]["name"]: r for d, r in zip(dids, ranks)}, lengths[sel][0]["name"] if sel is not None else "an edge that is not one of the three measured"))
